@@ -53,6 +53,15 @@ def _kinds_established(path, child, upto):
                 if b0[0] == "agg" and b0[1].endswith("TokenType") and a0[0] == "call" and a0[1].endswith("get_type") and \
                         mentions(a0, lambda t: t == child):
                     out.add(b0[2])
+        elif c[0] == "call" and c[1].endswith("::contains") and v is True and len(c[2]) == 2:
+            # `[TokenType::Group, TokenType::And].contains(&get_type(child))`
+            arr, x = strip(c[2][0]), strip(c[2][1])
+            if x[0] == "call" and x[1].endswith("get_type") and mentions(x, lambda t: t == child):
+                def el(t):
+                    if t[0] == "agg" and t[1].endswith("TokenType") and t[2] in KINDS:
+                        out.add(t[2])
+                    return False
+                mentions(arr, el)
         elif c[0] == "variant" and isinstance(v, str) and v in KINDS:
             x = strip(c[1])
             if x[0] == "call" and x[1].endswith("get_type") and mentions(x, lambda t: t == child):
@@ -92,6 +101,26 @@ def run(ctx):
                     k = _const_kind(e["args"][0])
                     if k:
                         list_kind.setdefault(strip(e["args"][1]), set()).add(k)
+        # a list built as `children.into_iter().filter(|c| matches!(c.get_type(), A | B)).collect()`
+        import folds
+        for L, ks in list(list_kind.items()):
+            L0 = strip(L)
+            if L0[0] == "call" and L0[1].endswith("::collect") and L0[2]:
+                x = strip(L0[2][0])
+                if x[0] == "call" and x[1].endswith("::filter") and len(x[2]) == 2 and strip(x[2][1])[0] == "closure":
+                    clo = strip(x[2][1])
+                    cb = folds.body_of(prog, clo[1])
+                    if cb is not None:
+                        for cp in Walker(cb, max_visits=2, inline=pol).paths(init_env={1: clo}):
+                            r = strip(cp.ret) if cp.end == "return" else None
+                            if r is not None and r[0] == "const" and r[3] == 1:
+                                item = ("param", 2, cb.locals[2].get("name") or "")
+                                got = _kinds_established(cp, item, len(cp.events))
+                                for dc, dv, _bb in cp.decisions:
+                                    if dc[0] == "variant" and isinstance(dv, str) and dv in KINDS and mentions(dc[1], lambda t: t == item):
+                                        got.add(dv)
+                                for k in ks:
+                                    writer.setdefault(k, set()).update(got)
         for p in ps:
             for i, e in enumerate(p.events):
                 if e["k"] != "call" or not e["callee"].endswith("::push") or len(e["args"]) != 2:
